@@ -335,6 +335,12 @@ def body_update(desc, F, *args):
                 return "graph %s differs from the Update semantics (fresh blank nodes) [%s]" % (gn, desc["name"])
         elif not same_set(got, want):
             return "graph %s differs from the Update semantics [%s]" % (gn, desc["name"])
+    if kind != "Graph":
+        # nothing may be written into a graph the request does not name (e.g. one named by a fresh blank node)
+        named_ids = [default_id] + [GN[n] for n in ("g1", "g2", "g3")]
+        for c in list(g.contexts()):
+            if not any(c.identifier == i for i in named_ids) and len(c) > 0:
+                return "triples were written into a graph that the request does not name [%s]" % desc["name"]
     return None
 
 
@@ -405,6 +411,10 @@ def requests(named):
         out["with-graphvar-delete-plain-insert"] = ([["modify", "g1", [], [(S, P, O, "?g")], [(S, P, C(0), "d")], [["graph", V("g"), A]]]], 1)
         out["with-graph-delete-plain-insert"] = ([["modify", "g1", [], [(S, P, O, "g1")], [(O, P, S, "d")], A]], 0)
         out["plain-delete-graph-insert-same"] = ([["modify", "g1", [], [(S, P, O, "d")], [(O, P, S, "g1")], A]], 0)
+        # graph variable of a template block unbound in some (or all) solutions: those quads are not instantiated
+        out["insert-graphvar-unbound"] = ([["modify", None, [], None, [(S, Q, O, "?g")], A + [["opt", [["graph", V("g"), [tp(O, P, S)]]]]]]], 0)
+        out["insert-graphvar-never-bound"] = ([["modify", None, [], None, [(S, Q, O, "?g"), (O, Q, S, "d")], A]], 0)
+        out["delete-graphvar-unbound"] = ([["modify", None, [], [(S, P, O, "?g"), (S, P, O, "d")], None, A + [["opt", [["graph", V("g"), [tp(O, P, S)]]]]]]], 0)
         out["copy-then-clear"] = ([["copy", "g1", "g2"], ["clear", ["graph", "g1"]]], 0)
     return out
 
